@@ -166,7 +166,14 @@ impl BaseBindingsGenerator for TypeScriptBindingsGenerator {
             );
 
             // Add event payload types to used_structs
-            for type_name in event_types {
+            // payload types bring their own field types with them
+            let mut closure = event_types.clone();
+            self.collector.discover_nested_dependencies(
+                &event_types,
+                discovered_structs,
+                &mut closure,
+            );
+            for type_name in closure {
                 if let Some(struct_info) = discovered_structs.get(&type_name) {
                     used_structs.insert(type_name.clone(), struct_info.clone());
                 }
